@@ -221,6 +221,30 @@ func c03Mutations(g c03Group, yield func(i int, desc string, mk func() []byte) b
 				}
 			}
 		}
+	case "payload-allbytes":
+		// EVERY byte of the codec data of every block of a small seed x {0x00, 0xFF, 0x01, 0x80}:
+		// reaches fields that live anywhere in the block (LZ match distances and lengths, ROLZ
+		// literal counts, RLT/ZRLT run lengths, dictionary indexes, chunk tables), in particular
+		// "distance 0" / "length 0" / "count 255" values that make a decode loop stop progressing
+		for bi := range ks.Blocks {
+			b := ks.Blocks[bi]
+			for k := 0; b.DataBit+8*k+8 <= b.PayloadBit+b.PayloadBits; k++ {
+				old := getBits(stream, b.DataBit+8*k, 8)
+				for vi, v := range []uint64{0x00, 0xFF, 0x01, 0x80} {
+					if v == old || vi >= g.Arg {
+						continue
+					}
+					bi, k, v := bi, k, v
+					if !emit(fmt.Sprintf("block %d codec data byte %d: %#x -> %#x", bi+1, k, old, v), func() []byte {
+						o := clone()
+						putBits(o, b.DataBit+8*k, 8, v)
+						return o
+					}) {
+						return nil
+					}
+				}
+			}
+		}
 	case "payload-head-words":
 		// multi-byte fields: every offset in the first Arg bytes of codec data x width 2,3,4 x both
 		// byte orders x values tied to the block geometry (codec headers store lengths/indexes so)
@@ -511,6 +535,8 @@ func superviseGroup(c *Ctx, g c03Group, silence time.Duration) {
 			close(lines)
 		}()
 		cur, curDesc := -1, ""
+		cpuAtCase := 0.0
+		busy := false
 		ended := false
 		hung := false
 	loop:
@@ -524,6 +550,7 @@ func superviseGroup(c *Ctx, g c03Group, silence time.Duration) {
 				case strings.HasPrefix(l, "S "):
 					fmt.Sscan(l[2:], &cur)
 					curDesc = l
+					cpuAtCase = procCPUSeconds(cmd.Process.Pid)
 				case strings.HasPrefix(l, "V "):
 					var idx int
 					var kind string
@@ -542,6 +569,8 @@ func superviseGroup(c *Ctx, g c03Group, silence time.Duration) {
 				}
 			case <-time.After(silence):
 				hung = true
+				// a worker that burned CPU for most of the window was not starved: it is computing
+				busy = procCPUSeconds(cmd.Process.Pid)-cpuAtCase >= 0.6*silence.Seconds()
 				cmd.Process.Kill()
 				break loop
 			}
@@ -555,6 +584,21 @@ func superviseGroup(c *Ctx, g c03Group, silence time.Duration) {
 		if hung {
 			// a silent worker may just be starved (machine under load, large legitimate allocation):
 			// the case is run again on its own with three times the allowance before it is believed
+			if busy && g.Len <= 100000 && g.Class != "blockhdr" && g.Class != "header" {
+				// blocks of at most 64 KiB and no forged sizes: a decode that has been computing for
+				// most of a minute of CPU time is not bounded by the declared block size
+				report(cur, "hang", fmt.Sprintf("the reader did not return within %v while using the CPU all along (busy loop): %s", silence, curDesc))
+				hangs++
+				if hangs >= 2 {
+					c.Capped("group " + g.String() + " abandoned after 2 hangs")
+					return
+				}
+				for k := start; k <= cur; k++ {
+					c.Count(fmt.Sprintf("C03|%s|%d", g, k), true)
+				}
+				start = cur + 1
+				continue
+			}
 			if !c03ConfirmHang(g, cur, 3*silence) {
 				c.AddExtra("slow_cases_that_finished_when_rerun", 1)
 				for k := start; k <= cur; k++ {
@@ -606,6 +650,25 @@ func superviseGroup(c *Ctx, g c03Group, silence time.Duration) {
 	}
 }
 
+// procCPUSeconds returns user+system CPU time consumed so far by a process (0 if unknown).
+func procCPUSeconds(pid int) float64 {
+	b, err := os.ReadFile(fmt.Sprintf("/proc/%d/stat", pid))
+	if err != nil {
+		return 0
+	}
+	s := string(b)
+	if i := strings.LastIndex(s, ")"); i >= 0 {
+		f := strings.Fields(s[i+1:])
+		if len(f) > 13 {
+			var ut, st float64
+			fmt.Sscan(f[11], &ut)
+			fmt.Sscan(f[12], &st)
+			return (ut + st) / 100
+		}
+	}
+	return 0
+}
+
 // c03ConfirmHang re-runs one mutation in a fresh worker; true = it is silent again for `allow`.
 func c03ConfirmHang(g c03Group, idx int, allow time.Duration) bool {
 	exe, _ := os.Executable()
@@ -640,7 +703,7 @@ var famC03 = NewFamily("C03.group", func(g c03Group) (*Fail, bool) {
 
 func init() {
 	register("C03", "fault_enumeration", func(c *Ctx) {
-		c.Rule("seed streams = every transform x {NONE,HUFFMAN} and every entropy codec (B=1024, 4 blocks) + larger blocks + a 4 MiB+ BWT block; mutation classes, each enumerated completely: every header field x boundary values (all 32 entropy ids, every transform slot x 0..63, versions, checksum size, block sizes incl. 1 GiB, size hints) with the header checksum recomputed and not; per block every length width 3..34 x boundary lengths; all 256 mode bytes and all 256 second bytes; pre-entropy length boundaries; every byte of the first 32-48 bytes of codec data x 8 substitutions; every 2/3/4-byte field in the first 8-24 bytes x both byte orders x values tied to the block geometry; every BWT chunk primary index x boundary values around the block length (> 4 MiB block); forged single-block streams (seed header + one block of 1..64 bytes of codec data whose leading 1/2/4-byte field takes boundary values, declared length matching, with and without block checksum); bit flips on a stride; truncations on a stride; garbage. Reader jobs {1,2,8}. Each case runs in a worker process: oracle = the worker survives (no panic/fatal error, also from helper goroutines), answers within the silence watchdog (60 s for blocks <= 64 KiB, else 120 s; a silent case is re-run on its own with three times the allowance before it is reported as a hang), no panic escapes Read, no goroutine is left alive after Close. Non-trivial = the mutation changed the outcome (error or no clean EOF)")
+		c.Rule("seed streams = every transform x {NONE,HUFFMAN} and every entropy codec (B=1024, 4 blocks) + larger blocks + a 4 MiB+ BWT block; mutation classes, each enumerated completely: every header field x boundary values (all 32 entropy ids, every transform slot x 0..63, versions, checksum size, block sizes incl. 1 GiB, size hints) with the header checksum recomputed and not; per block every length width 3..34 x boundary lengths; all 256 mode bytes and all 256 second bytes; pre-entropy length boundaries; every byte of the first 32-48 bytes of codec data x 8 substitutions; every 2/3/4-byte field in the first 8-24 bytes x both byte orders x values tied to the block geometry; every BWT chunk primary index x boundary values around the block length (> 4 MiB block); every byte of the codec data of small blocks x {0x00,0xFF,0x01,0x80}; forged single-block streams (seed header + one block of 1..64 bytes of codec data whose leading 1/2/4-byte field takes boundary values, declared length matching, with and without block checksum); bit flips on a stride; truncations on a stride; garbage. Reader jobs {1,2,8}. Each case runs in a worker process: oracle = the worker survives (no panic/fatal error, also from helper goroutines), answers within the silence watchdog (60 s for blocks <= 64 KiB, else 120 s; a silent case is re-run on its own with three times the allowance before it is reported as a hang), no panic escapes Read, no goroutine is left alive after Close. Non-trivial = the mutation changed the outcome (error or no clean EOF)")
 		c.Assume("forged sizes are kept where legitimate allocation stays below the worker's 40 GiB address-space limit")
 		var groups []c03Group
 		add := func(g c03Group) { g.Only = -1; groups = append(groups, g) }
@@ -682,6 +745,13 @@ func init() {
 			}
 			if c.Thorough() {
 				add(c03Group{P: p, Shape: sh, Len: 4096 + 500, Jobs: 2, Class: "forged-tiny", Arg: 3})
+			}
+			// small seeds (a 1024-byte and a 300-byte block), every byte of the codec data
+			ps := Params{k.t, k.e, 1024, 2, 0, -1, false, false}
+			add(c03Group{P: ps, Shape: sh, Len: 1024 + 300, Jobs: pick(c, uint(1), uint(2)), Class: "payload-allbytes", Arg: pick(c, 2, 4)})
+			if c.Thorough() {
+				ps.Checksum = 32
+				add(c03Group{P: ps, Shape: sh, Len: 1024 + 300, Jobs: 1, Class: "payload-allbytes", Arg: 4})
 			}
 			if c.Thorough() || (k.t == "NONE" && k.e == "NONE") || (k.t == "LZ" && k.e == "HUFFMAN") || (k.t == "BWT" && k.e == "NONE") || (k.t == "TEXT" && k.e == "NONE") || (k.t == "NONE" && k.e == "ANS0") {
 				add(c03Group{P: p, Shape: sh, Len: 4096 + 500, Jobs: 1, Class: "modebyte"})
